@@ -3,7 +3,8 @@
 import json, os, glob
 V = os.path.dirname(os.path.dirname(os.path.abspath(__file__)))
 rows = ["| seeded change | property | caught by (property: obligations) | counterexample replayed natively |", "|---|---|---|---|"]
-n = c = 0
+n = c = neutral = 0
+benign = []
 for p in sorted(glob.glob(os.path.join(V, "seeded", "*", "meta.json"))):
     m = json.load(open(p))
     n += 1
@@ -11,11 +12,21 @@ for p in sorted(glob.glob(os.path.join(V, "seeded", "*", "meta.json"))):
     if cb:
         c += 1
     txt = "; ".join("%s: %s" % (k, ", ".join(v)) for k, v in sorted(cb.items())) or "**not caught**"
+    if not cb and m.get("neutralised"):
+        neutral += 1
+        txt = "no longer a violation: " + m["neutralised"]
     rp = m.get("replayed_natively") or {}
     rtxt = "; ".join("%s: %s" % (k, ", ".join(v)) for k, v in sorted(rp.items())) or "-"
     rows.append("| %s | %s | %s | %s |" % (m["name"], m["property"], txt, rtxt))
 rows.append("")
-rows.append("%d of %d seeded changes are caught by at least one check." % (c, n))
+rows.append("%d of %d seeded changes are caught by at least one check%s." % (
+    c, n, ("; %d no longer break%s the property on the repaired tree (the seed's own demonstration passes with the patch applied)" % (neutral, "s" if neutral == 1 else "")) if neutral else ""))
+bp = os.path.join(V, "benign", "results.json")
+if os.path.exists(bp):
+    br = json.load(open(bp))
+    rows.append("")
+    rows.append("Behaviour-preserving refactorings (`tools/seed.py benign`, all 19 checks must exit 0): " +
+                "; ".join("%s: %s" % (k, v) for k, v in sorted(br.items())) + ".")
 s = open(os.path.join(V, "DESIGN.md")).read()
 a = s.index("<!-- SEED-TABLE-BEGIN -->") + len("<!-- SEED-TABLE-BEGIN -->")
 b = s.index("<!-- SEED-TABLE-END -->")
